@@ -416,6 +416,17 @@ def check(case):
     if state.get("stray_fragment") is not None:
         labels.append("model=stray-fragment")
         in_hs = state["stray_fragment"] < hs_len(trace, version)
+        if len([d for d in devs if d[0] != "frag"]) > 0:
+            # combined with another deviation the fragment may end up
+            # *behind* a message that legitimately completes the handshake
+            # (e.g. an inserted copy of the Finished): no verdict beyond
+            # "no crash"
+            if vout.state == "exc" and not isinstance(
+                    vout.exc, (BaseTLSException, OSError)):
+                return bad("unrelated-exception:%s@%s" % (
+                    type(vout.exc).__name__, exc_site(vout.exc)),
+                    repr(case), labels=labels)
+            return good(nt=False, labels=labels + ["fragment+other:either"])
         labels.append("victim=" + (describe_exc(vout.exc) if vout.exc
                                    else vout.state))
         if vout.state == "exc" and not isinstance(
